@@ -1,8 +1,9 @@
 (* C11: the file-level line machine.  For every WebVTT file made of a header line and cue blocks (optional
-   identifier line, timing line with any setting words, one or more non-blank payload lines), separated by one
-   blank line, to_model isolates exactly the cue blocks: one paragraph per cue, in order, with exactly the
-   printed begin and end, the region its settings select, and the tree parsed from its payload lines joined
-   by line feeds.  By induction on the list of cues. *)
+   identifier line, timing line with any setting words, zero or more non-blank payload lines), separated by one
+   blank line, to_model isolates exactly the cue blocks: one paragraph per cue that has a payload, in order, with
+   exactly the printed begin and end, the region its settings select, and the tree parsed from its payload lines
+   joined by line feeds; a cue without payload lines yields no paragraph (its region is still created) and does
+   not disturb its neighbours.  By induction on the list of cues. *)
 From Coq Require Import QArith.
 From TT Require Import Base.Prelude Gen.VttTables Model.VttTokenizer Model.VttReader Spec.VttSpec.
 From TT Require Import Proofs.C11.Time.
@@ -36,7 +37,7 @@ Definition rcue_ok (c : rcue) : Prop :=
   match rc_id c with Some i => id_ok i = true | None => True end /\
   wf_ts (rc_begin c) /\ wf_ts (rc_end c) /\
   forallb word_ok (rc_settings c) = true /\
-  rc_lines c <> [] /\ forallb line_ok (rc_lines c) = true.
+  forallb line_ok (rc_lines c) = true.
 
 (* ---- what the file means *)
 Definition cue_text (c : rcue) : text := replace_raw (strip_crlf (concat (map nl (rc_lines c)))).
@@ -46,9 +47,13 @@ Fixpoint read_cues (cs : list rcue) (regions : list region) (paras : list para) 
   | c :: cs' =>
     let '(regions', ri) := get_or_make_region regions (rc_settings c) in
     let b := Qmake (ts_ms (rc_begin c)) 1000 in
-    match parse_cue_text b true (cue_text c) with
-    | inr e => Raised e
-    | inl children => read_cues cs' regions' (paras ++ [mkPara b (Qmake (ts_ms (rc_end c)) 1000) ri children])
+    match rc_lines c with
+    | [] => read_cues cs' regions' paras            (* no payload: nothing is shown, nothing is attached *)
+    | _ =>
+      match parse_cue_text b true (cue_text c) with
+      | inr e => Raised e
+      | inl children => read_cues cs' regions' (paras ++ [mkPara b (Qmake (ts_ms (rc_end c)) 1000) ri children])
+      end
     end
   end.
 
@@ -161,9 +166,9 @@ Lemma timing_looking c s : rcue_ok c ->
   looking (timing_line c) s =
   let '(regions, ri) := get_or_make_region (rs_regions s) (rc_settings c) in
   mkR LText regions (rs_paras s)
-      (Some (mkPara (Qmake (ts_ms (rc_begin c)) 1000) (Qmake (ts_ms (rc_end c)) 1000) ri [])) false (rs_text s).
+      (Some (mkPara (Qmake (ts_ms (rc_begin c)) 1000) (Qmake (ts_ms (rc_end c)) 1000) ri [])) false (Some []).
 Proof.
-  intros (_ & Hb & He & Hs & _ & _). unfold looking.
+  intros (_ & Hb & He & Hs & _). unfold looking.
   destruct (print_ts_head _ Hb) as (cb & rb & Eb & Db).
   assert (Hhd : exists r, timing_line c = cb :: r).
   { unfold timing_line, nl. rewrite Eb. cbn [app]. eexists; reflexivity. }
@@ -215,15 +220,19 @@ Lemma run_cue c t rest s : rcue_ok c -> terminator t -> rs_state s = LLooking ->
   run_lines (map Some (cue_lines c) ++ t :: rest) s =
   let '(regions, ri) := get_or_make_region (rs_regions s) (rc_settings c) in
   let b := Qmake (ts_ms (rc_begin c)) 1000 in
-  match parse_cue_text b true (cue_text c) with
-  | inr e => Raised e
-  | inl children =>
-    let p := mkPara b (Qmake (ts_ms (rc_end c)) 1000) ri in
-    run_lines rest (mkR LLooking regions (rs_paras s ++ [p children]) (Some (p [])) true
-                        (Some (concat (map nl (rc_lines c)))))
+  let p := mkPara b (Qmake (ts_ms (rc_end c)) 1000) ri in
+  match rc_lines c with
+  | [] => run_lines rest (mkR LLooking regions (rs_paras s) (Some (p [])) false (Some []))
+  | _ =>
+    match parse_cue_text b true (cue_text c) with
+    | inr e => Raised e
+    | inl children =>
+      run_lines rest (mkR LLooking regions (rs_paras s ++ [p children]) (Some (p [])) true
+                          (Some (concat (map nl (rc_lines c)))))
+    end
   end.
 Proof.
-  intros W T L. pose proof W as (Hid & Hb & He & Hs & Hne & Hl).
+  intros W T L. pose proof W as (Hid & Hb & He & Hs & Hl).
   unfold cue_lines.
   (* the identifier line is skipped *)
   assert (Skip : forall items, run_lines (map Some (match rc_id c with Some i => [nl i] | None => [] end) ++ items) s = run_lines items s).
@@ -235,20 +244,19 @@ Proof.
   rewrite map_app, <- app_assoc. rewrite Skip.
   cbn [map app run_lines]. rewrite L. rewrite timing_looking by exact W.
   destruct (get_or_make_region (rs_regions s) (rc_settings c)) as [rg ri].
-  destruct (rc_lines c) as [|l1 ls] eqn:El; [congruence|].
-  cbn [forallb] in Hl. apply andb_true_iff in Hl as [Hl1 Hls].
-  pose proof Hl1 as Hl1'. unfold line_ok in Hl1'. apply andb_true_iff in Hl1' as [_ Hb1]. apply negb_true_iff in Hb1.
-  cbn [map app run_lines rs_state]. rewrite Hb1. cbn [rs_cur rs_state rs_regions rs_paras rs_attached rs_text].
-  rewrite run_text_more by exact Hls.
   assert (TB : match t with None => true | Some l => is_blank l end = true) by (destruct T as [-> | ->]; reflexivity).
-  cbn [run_lines rs_state]. rewrite TB. cbn [rs_text rs_cur rs_attached rs_paras rs_regions pa_begin pa_end pa_region].
-  unfold cue_text. rewrite El. cbn [map concat].
-  destruct (parse_cue_text _ true _) as [ch|e]; [|reflexivity].
-  replace (replace_last (rs_paras s ++ [mkPara (ts_ms (rc_begin c) # 1000) (ts_ms (rc_end c) # 1000) ri []])
-                        (mkPara (ts_ms (rc_begin c) # 1000) (ts_ms (rc_end c) # 1000) ri ch))
-    with (rs_paras s ++ [mkPara (ts_ms (rc_begin c) # 1000) (ts_ms (rc_end c) # 1000) ri ch]).
-  - reflexivity.
-  - symmetry. apply replace_last_app.
+  destruct (rc_lines c) as [|l1 ls] eqn:El.
+  - (* no payload: subtitle_text is "", the paragraph is never attached *)
+    cbn [map app run_lines rs_state]. rewrite TB.
+    cbn [rs_text rs_cur rs_attached rs_paras rs_regions pa_begin pa_end pa_region]. reflexivity.
+  - cbn [forallb] in Hl. apply andb_true_iff in Hl as [Hl1 Hls].
+    pose proof Hl1 as Hl1'. unfold line_ok in Hl1'. apply andb_true_iff in Hl1' as [_ Hb1]. apply negb_true_iff in Hb1.
+    cbn [map app run_lines rs_state]. rewrite Hb1. cbn [rs_cur rs_state rs_regions rs_paras rs_attached rs_text].
+    rewrite run_text_more by exact Hls.
+    cbn [run_lines rs_state]. rewrite TB. cbn [rs_text rs_cur rs_attached rs_paras rs_regions pa_begin pa_end pa_region].
+    unfold cue_text. rewrite El. cbn [map concat].
+    destruct (parse_cue_text _ true _) as [ch|e]; [|reflexivity].
+    rewrite replace_last_app. reflexivity.
 Qed.
 
 (* ================================================================ the whole file *)
@@ -265,11 +273,14 @@ Proof.
   cbn [items_of read_cues]. destruct cs as [|c2 cs].
   - rewrite run_cue; [|assumption|left; reflexivity|exact L].
     destruct (get_or_make_region _ _) as [rg ri]. cbv zeta.
+    destruct (rc_lines c); [reflexivity|].
     destruct (parse_cue_text _ true _); reflexivity.
   - rewrite run_cue; [|assumption|right; reflexivity|exact L].
     destruct (get_or_make_region _ _) as [rg ri]. cbv zeta.
-    destruct (parse_cue_text _ true _) as [ch|e]; [|reflexivity].
-    rewrite IH; [reflexivity|discriminate|assumption|reflexivity].
+    destruct (rc_lines c).
+    + rewrite IH; [reflexivity|discriminate|assumption|reflexivity].
+    + destruct (parse_cue_text _ true _) as [ch|e]; [|reflexivity].
+      rewrite IH; [reflexivity|discriminate|assumption|reflexivity].
 Qed.
 
 Lemma file_items hdr cs :
@@ -312,7 +323,7 @@ Qed.
 
 Lemma cue_lines_nl c : rcue_ok c -> Forall nl_line (cue_lines c).
 Proof.
-  intros (Hid & Hb & He & Hs & _ & Hl). unfold cue_lines. apply Forall_app; split.
+  intros (Hid & Hb & He & Hs & Hl). unfold cue_lines. apply Forall_app; split.
   - destruct (rc_id c) as [i|]; [|constructor]. constructor; [|constructor].
     exists i. split; [reflexivity|]. unfold id_ok in Hid. repeat (apply andb_true_iff in Hid as [Hid ?]). exact Hid.
   - constructor.
@@ -389,9 +400,14 @@ Proof.
   apply replace_raw_id. apply negb_true_iff in H3. exact H3.
 Qed.
 
-(* non-vacuity: a two-cue file *)
+(* the empty file is an empty document *)
+Lemma empty_file : to_model [] = OkDoc [] [].
+Proof. reflexivity. Qed.
+
+(* non-vacuity: a three-cue file, the second cue without payload *)
 Example file_example :
   Forall rcue_ok [mkRcue (Some [105;100]) (mkTs None 0 1 0) (mkTs (Some [0;0]) 0 2 500) [[108;105;110;101;58;48]] [[97];[98;32;99]];
+                  mkRcue None (mkTs None 0 2 600) (mkTs None 0 2 900) [] [];
                   mkRcue None (mkTs None 0 3 0) (mkTs None 0 4 0) [] [[60;98;62;120]]].
 Proof.
   repeat constructor; cbn; try lia; try discriminate; try reflexivity; unfold digit_ok; try lia.
